@@ -4,6 +4,8 @@ import (
 	"fmt"
 	"strings"
 
+	"golang.org/x/tools/go/callgraph"
+
 	"golang.org/x/tools/go/ssa"
 )
 
@@ -226,6 +228,122 @@ func ruleFinalize(c *Ctx) *RuleResult {
 	if fin == "" || rel == "" {
 		r.broken("anchor unresolved: luagc.wrFinalized / wrReleased")
 		return r
+	}
+	// (e) a pending list is cleared only after its content has been taken over:
+	// every store of nil to pendingFinalize/pendingRelease is preceded by a load of
+	// the same field whose value reaches the function's result
+	for _, f := range p.ModFuncs() {
+		if relPkg(funcPkgPath(f)) != "runtime/internal/luagc" || f.Blocks == nil {
+			continue
+		}
+		forEachInstr(f, func(ins ssa.Instruction) {
+			st, ok := ins.(*ssa.Store)
+			if !ok || !isNilConst(st.Val) {
+				return
+			}
+			fa, ok := st.Addr.(*ssa.FieldAddr)
+			if !ok {
+				return
+			}
+			_, tn, fn := fieldOfAddr(fa)
+			if tn != "ClonePool" || (fn != "pendingFinalize" && fn != "pendingRelease") {
+				return
+			}
+			// loads of the same field dominating the store
+			taken := false
+			forEachInstr(f, func(o ssa.Instruction) {
+				u, ok := o.(*ssa.UnOp)
+				if !ok {
+					return
+				}
+				fa2, ok := u.X.(*ssa.FieldAddr)
+				if !ok || fa2.Field != fa.Field || !sameLoadChain(fa2.X, fa.X) || !instrDominates(o, st) {
+					return
+				}
+				// does the loaded list reach a return value?
+				seen := map[ssa.Value]bool{}
+				var visit func(v ssa.Value, d int)
+				visit = func(v ssa.Value, d int) {
+					if d > 8 || seen[v] || v.Referrers() == nil {
+						return
+					}
+					seen[v] = true
+					for _, ref := range *v.Referrers() {
+						switch x := ref.(type) {
+						case *ssa.Return:
+							taken = true
+						case ssa.Value:
+							visit(x, d+1)
+						}
+					}
+				}
+				visit(u, 0)
+			})
+			if taken {
+				r.ok(fmt.Sprintf("(e) %s clears ClonePool.%s after taking its content into the result", fnKey(f), fn))
+			} else {
+				r.fail("pending-list-discarded:"+fn+":"+fnKey(f), p.InstrPos(st), fmt.Sprintf("%s sets ClonePool.%s to nil without taking over the entries that were in it: values the Go collector had already queued (and flagged) are dropped, so they are never finalised/released", fnKey(f), fn))
+			}
+		})
+	}
+	// (a') after the values to release have been extracted, nothing that can run
+	// Lua code (and so be terminated) may follow in that function: the extracted
+	// list would be lost
+	if runc := p.Func("runtime", "(*Thread).RunContinuation"); runc != nil {
+		for _, name := range []string{"(*Runtime).runPendingFinalizers", "(*runtimeContextManager).PopContext"} {
+			f := p.Func("runtime", name)
+			if f == nil || (p.Config.Tags == "noquotas" && strings.Contains(name, "PopContext")) {
+				continue
+			}
+			forEachInstr(f, func(ins ssa.Instruction) {
+				rc, ok := ins.(ssa.CallInstruction)
+				if !ok || !calleeNamed(rc, "ExtractAllMarkedRelease", "ExtractPendingRelease") {
+					return
+				}
+				// instructions reachable after rc
+				var after []ssa.Instruction
+				idx := instrIndex(ins)
+				after = append(after, ins.Block().Instrs[idx+1:]...)
+				seen := map[*ssa.BasicBlock]bool{}
+				stack := append([]*ssa.BasicBlock(nil), ins.Block().Succs...)
+				for len(stack) > 0 {
+					b := stack[len(stack)-1]
+					stack = stack[:len(stack)-1]
+					if seen[b] {
+						continue
+					}
+					seen[b] = true
+					after = append(after, b.Instrs...)
+					stack = append(stack, b.Succs...)
+				}
+				bad := ""
+				for _, a := range after {
+					call, ok := a.(ssa.CallInstruction)
+					if !ok {
+						continue
+					}
+					cal := call.Common().StaticCallee()
+					if cal == nil || !p.InModule(cal) || cal == relRes {
+						continue
+					}
+					reach := &Reach{p: p}
+					hit := cal == runc
+					runUncut(reach, []*ssa.Function{cal}, func(e *callgraph.Edge, cur searchState) {
+						if e.Callee.Func == runc {
+							hit = true
+						}
+					})
+					if hit {
+						bad = fnKey(cal) + " at " + p.InstrPos(a)
+					}
+				}
+				if bad == "" {
+					r.ok(fmt.Sprintf("(a') %s: nothing that can run Lua follows the extraction of the values to release", name))
+				} else {
+					r.fail("lua-after-release-extraction:"+name, p.InstrPos(ins), fmt.Sprintf("%s extracts the values to release and then calls %s, which can run Lua code and be terminated: the extracted list would be lost and those resources never released", name, bad))
+				}
+			})
+		}
 	}
 	checkPool("(*ClonePool).ExtractAllMarkedFinalize", fin, true)
 	checkPool("(*ClonePool).ExtractAllMarkedRelease", rel, false)
